@@ -1,0 +1,36 @@
+//go:build verif
+
+package ed25519
+
+import "github.com/cloudflare/pat-go/ed25519/internal/edwards25519"
+
+// VerifPointOp runs one operation of the internal point arithmetic on points given by their
+// 32-byte encodings (build tag verif only). "decode" re-encodes p; "double" is p + p.
+func VerifPointOp(op string, p, q []byte) (out []byte, flag int, err error) {
+	P, err := (&edwards25519.Point{}).SetBytes(p)
+	if err != nil {
+		return nil, 0, err
+	}
+	if op == "decode" {
+		return P.Bytes(), 0, nil
+	}
+	if op == "neg" {
+		return (&edwards25519.Point{}).Negate(P).Bytes(), 0, nil
+	}
+	if op == "double" {
+		return (&edwards25519.Point{}).Add(P, P).Bytes(), 0, nil
+	}
+	Q, err := (&edwards25519.Point{}).SetBytes(q)
+	if err != nil {
+		return nil, 0, err
+	}
+	switch op {
+	case "add":
+		return (&edwards25519.Point{}).Add(P, Q).Bytes(), 0, nil
+	case "sub":
+		return (&edwards25519.Point{}).Subtract(P, Q).Bytes(), 0, nil
+	case "equal":
+		return nil, P.Equal(Q), nil
+	}
+	panic("VerifPointOp: unknown operation " + op)
+}
